@@ -6,15 +6,16 @@
 (* declarative one (C02), equals the load of the unrolled script (C06), and (action property) *)
 (* operations are only ever appended.  Each finished load is printed for replay.              *)
 EXTENDS BBDenote, Json
-CONSTANTS N, MetaMenu, ItemMenu, Prelude, MinLen      \* MinLen > 0 only in simulation runs (longer random scripts)
+CONSTANTS N, MetaMenu, ItemMenu, Prelude, BaseDir, MinLen      \* MinLen > 0 only in simulation runs (longer random scripts)
 
 VARIABLES S, script, closed
 vars == <<S, script, closed>>
 
 NoFS(p) == NoFile
 EmptyPrelude == <<>>
+RootDir == <<>>
 Open(m) == LET s == [m EXCEPT !.body = Prelude] IN
-           [Begin(Fresh, s, <<>>) EXCEPT !.st[1].plan = SubSeq(Plan(s), 1, Len(Plan(s)) - 1)]
+           [Begin(Fresh, s, BaseDir) EXCEPT !.st[1].plan = SubSeq(Plan(s), 1, Len(Plan(s)) - 1)]
 Init == \E m \in MetaMenu : script = [m EXCEPT !.body = Prelude] /\ S = Open(m) /\ closed = FALSE
 
 AtEnd == S.res = None /\ Len(S.st) = 1 /\ Top(S).pc > Len(Top(S).plan)
